@@ -8,7 +8,7 @@ use serde_json::{json, Value};
 pub const DEF: PropDef = PropDef {
     id: "C11",
     level: "exploration",
-    rule: "(1) all sequences of 1..4 (thorough 1..5) atoms after 6 heads (`x is`, `x was`, `x are`, `x's`, `the zed were`, `rock x like`) over 41 atoms (words of length 1,3,9,10,11,20,23; words with inner / trailing / leading apostrophes; 's, 're, 's's suffixes; hyphenated words incl. keywords and numerals after the hyphen; words with 5 and 10 suffix parts; the free-standing word 'n' / 'N'; keywords used as words; four non-ASCII words (2-byte letters, length 10, capitals with a hyphen); a numeral; period and comma as separate and glued atoms); expected = the decimal numeral spelled by the word lengths, correctly rounded; printed value within 4 ulp, exact for integers; (2) all line texts of length <=4 (thorough <=5) over {a, space, comma, period, !, apostrophe, é, 1, -, tab} plus whole-lexeme atoms after `x says ` / `x said `: output equals the text byte for byte; (3) PoeticNumberLiteral::compute_value on every digit string of length <=6 (thorough <=7) x every position of the decimal point, each digit realised as a word of that length, and again as word + suffix splits; (4) right-hand sides that start with a literal word, a negative number or a number literal of any size (235 numerals) are ordinary expressions; single words of 24..70 000 letters (plain, hyphenated, suffixed, 2-byte letters) and words whose letters change UTF-8 length when lower-cased, in three positions after three heads; (5) one fixed probe of the recorded finding (an open quote in a poetic string swallows the following lines); non-trivial = all cases except the trivially empty text; distinct = distinct text / literal",
+    rule: "(1) all sequences of 1..4 (thorough 1..5) atoms after 6 heads (`x is`, `x was`, `x are`, `x's`, `the zed were`, `rock x like`) over 41 atoms (words of length 1,3,9,10,11,20,23; words with inner / trailing / leading apostrophes; 's, 're, 's's suffixes; hyphenated words incl. keywords and numerals after the hyphen; words with 5 and 10 suffix parts; the free-standing word 'n' / 'N'; keywords used as words; four non-ASCII words (2-byte letters, length 10, capitals with a hyphen); a numeral; period and comma as separate and glued atoms), and all sequences of 2..3 atoms joined by 6 other blanks (tab, two spaces, NBSP, em space, ideographic space, a mix); expected = the decimal numeral spelled by the word lengths, correctly rounded; printed value within 4 ulp, exact for integers; (2) all line texts of length <=4 (thorough <=5) over {a, space, comma, period, !, apostrophe, é, 1, -, tab} plus whole-lexeme atoms after `x says ` / `x said `: output equals the text byte for byte; (3) PoeticNumberLiteral::compute_value on every digit string of length <=6 (thorough <=7) x every position of the decimal point, each digit realised as a word of that length, and again as word + suffix splits; (4) right-hand sides that start with a literal word, a negative number or a number literal of any size (235 numerals) are ordinary expressions; single words of 24..70 000 letters (plain, hyphenated, suffixed, 2-byte letters) and words whose letters change UTF-8 length when lower-cased, in three positions after three heads; (5) one fixed probe of the recorded finding (an open quote in a poetic string swallows the following lines); non-trivial = all cases except the trivially empty text; distinct = distinct text / literal",
     assumptions: &[
         "texts that leave a quote or parenthesis open on the line are outside the property's quantifier (recorded finding) and are not generated, except the one fixed probe",
         "tolerance: 4 units in the last place for numerals of <= 7 digits; integers below 2^53 must be exact",
@@ -63,6 +63,9 @@ pub const ATOMS: &[(&str, usize)] = &[
     ("'n'", 1),
     ("'N'", 1),
 ];
+
+/// blanks other than one space between the words of a literal (second part of the number-words family)
+pub const BLANKS: &[&str] = &["\t", "  ", "\u{a0}", "\u{2003}", "\u{3000}", " \u{a0}\t"];
 
 pub const HEADS: &[&str] = &["x is ", "x was ", "x are ", "x's ", "the zed were ", "rock x like "];
 
@@ -186,6 +189,7 @@ fn long_case(idx: u64) -> (String, String) {
 
 pub struct C11 {
     seqs: Space<(usize, Vec<usize>)>,
+    blank_seqs: Space<(usize, Vec<usize>)>,
     texts: Space<(usize, String)>,
     digits_max: usize,
     digit_cases: u64,
@@ -219,12 +223,14 @@ fn build(tier: Tier) -> Box<dyn Check> {
     let atoms: Space<usize> = Space::of((0..ATOMS.len()).collect());
     let heads: Space<usize> = Space::of((0..HEADS.len()).collect());
     let seqs = heads.product(&atoms.seq_range(1, tier.pick(4, 5)), |h, v| (h, v));
+    let blank_seqs = heads.product(&atoms.seq_range(2, 3), |h, v| (h, v));
     let says: Space<usize> = Space::of(vec![0, 1]);
     let texts = Space::union(vec![strings(STRING_SYMS, 0, tier.pick(4, 5)), Space::of(STRING_ATOMS.iter().map(|s| s.to_string()).collect())]);
     let texts = says.product(&texts, |h, t| (h, t));
     let digits_max = tier.pick(6, 7);
     Box::new(C11 {
         seqs,
+        blank_seqs,
         texts,
         digits_max,
         digit_cases: digit_space_size(digits_max),
@@ -299,10 +305,18 @@ fn build(tier: Tier) -> Box<dyn Check> {
 
 impl C11 {
     fn seq_text(&self, idx: u64) -> (String, Option<String>, bool) {
+        if idx >= self.seqs.len() {
+            let k = idx - self.seqs.len();
+            let (h, v) = self.blank_seqs.get(k / BLANKS.len() as u64);
+            return Self::seq_text_of(h, v, BLANKS[(k % BLANKS.len() as u64) as usize]);
+        }
         let (h, v) = self.seqs.get(idx);
+        Self::seq_text_of(h, v, " ")
+    }
+    fn seq_text_of(h: usize, v: Vec<usize>, blank: &str) -> (String, Option<String>, bool) {
         let body: Vec<&str> = v.iter().map(|a| ATOMS[*a].0).collect();
         let rock = HEADS[h].starts_with("rock");
-        let text = format!("{}{}\n{}\n", HEADS[h], body.join(" "), if rock { "say x at 0" } else if HEADS[h].starts_with("the zed") { "say the zed" } else { "say x" });
+        let text = format!("{}{}\n{}\n", HEADS[h], body.join(blank), if rock { "say x at 0" } else if HEADS[h].starts_with("the zed") { "say the zed" } else { "say x" });
         let valid = first_ok(ATOMS[v[0]].0);
         (text, if valid { numeral_of(&v) } else { None }, valid)
     }
@@ -342,7 +356,7 @@ impl C11 {
 impl Check for C11 {
     fn families(&self) -> Vec<(String, u64)> {
         vec![
-            ("number-words".into(), self.seqs.len()),
+            ("number-words".into(), self.seqs.len() + self.blank_seqs.len() * BLANKS.len() as u64),
             ("string-texts".into(), self.texts.len()),
             ("digits".into(), self.digit_cases),
             ("digits-with-suffix-splits".into(), self.digit_cases),
